@@ -181,8 +181,30 @@ def primsT (tab : Table) : RngPrims Sym Sym Sym :=
     prngKey := fun v => evalT tab (.call "jr:PRNGKey" [rvalTerm v] [])
     split0 := fun v => evalT tab (.call "py:split0" [rvalTerm v] []) }
 
+/-- tree structures: {"leaf": true} | {"tup": [...]} | {"blk": n} -/
+partial def ptUnitOfJson? (j : Json) : Option (PT Unit) :=
+  match field? j "tup" with
+  | some v => do some (PT.tup (← (← getList? v).mapM ptUnitOfJson?))
+  | none => match field? j "blk" with
+    | some v => (getNat? v).map (fun n => PT.blk (List.replicate n ()))
+    | none => match field? j "leaf" with
+      | some _ => some (PT.leaf ())
+      | none => none
+
+partial def ptJson : PT Sym → Json
+  | .leaf a => jObj [("leaf", a.toJson)]
+  | .tup cs => jObj [("tup", jArr (cs.map ptJson))]
+  | .blk bs => jObj [("blk", jArr (bs.map Sym.toJson))]
+
 def handler : Handler := fun op j =>
   match op with
+  | "tree_unflatten" => do
+    let s ← ptUnitOfJson? (← field? j "struct")
+    let leaves ← (← fList? j "leaves").mapM Sym.ofJson?
+    let tab ← tabOf? j
+    match treeUnflattenTop (envT tab) s leaves with
+    | .error e => some (errReply e)
+    | .ok t => some (reply tab (ptJson t) t.leaves)
   | "setitem" => do
     let self ← (← fList? j "blocks").mapM Sym.ofJson?
     let k ← fInt? j "k"
